@@ -46,7 +46,9 @@ Fixpoint events_match (evs : list sse_event) (ref : list bytes) : bool :=
   match evs, ref with
   | [], [] => true
   | e :: evs', m :: ref' =>
-      bytes_eqb (ev_type e) [] && bytes_eqb (normalise (ev_data e)) (normalise m) &&
+      bytes_eqb (ev_type e) [] && bytes_eqb (ev_id e) [] &&
+      (match ev_retry e with None => true | Some _ => false end) &&
+      bytes_eqb (normalise (ev_data e)) (normalise m) &&
       events_match evs' ref'
   | _, _ => false
   end.
@@ -58,7 +60,9 @@ Definition oracle (c : case) : bool :=
   match c with
   | CSsePre body =>
       match sse_parse body with
-      | [e] => bytes_eqb (ev_type e) [] && has_pre (ev_data e) connect_prefix &&
+      | [e] => bytes_eqb (ev_type e) [] && bytes_eqb (ev_id e) [] &&
+               (match ev_retry e with None => true | Some _ => false end) &&
+               has_pre (ev_data e) connect_prefix &&
                has_pre (rev (ev_data e)) [125; 125]
       | _ => false
       end
